@@ -364,6 +364,8 @@ class EvalMixin(object):
                 out.append((s, it))
                 continue
             csite = self.site(frame, node)
+            if it[0] == "cursor":
+                it = ("rows", it[1])
             elem = ("elem", it, csite)
             env = s.envs[frame.fid]
             saved = dict(env)
